@@ -220,6 +220,45 @@ type childState struct {
 	issued   map[int]time.Time
 	nAdj     int
 	taint    []string
+	consumed int // goroutine exits (watcher.drops) already acknowledged by sc.expire
+}
+
+// watcher samples runtime.NumGoroutine() every millisecond and records when it went down: the
+// moment an expiry goroutine finished, whenever the parent gets round to asking for it.
+type watcherT struct {
+	mu    sync.Mutex
+	drops []time.Time
+}
+
+var watcher watcherT
+
+func (w *watcherT) run() {
+	last := runtime.NumGoroutine()
+	for {
+		time.Sleep(time.Millisecond)
+		cur := runtime.NumGoroutine()
+		if cur < last {
+			now := time.Now()
+			w.mu.Lock()
+			for i := cur; i < last; i++ {
+				w.drops = append(w.drops, now)
+			}
+			w.mu.Unlock()
+		}
+		last = cur
+	}
+}
+
+func (w *watcherT) count() int {
+	w.mu.Lock()
+	defer w.mu.Unlock()
+	return len(w.drops)
+}
+
+func (w *watcherT) at(i int) time.Time {
+	w.mu.Lock()
+	defer w.mu.Unlock()
+	return w.drops[i]
 }
 
 func (c *childState) kernelFreq() (int64, error) {
@@ -259,6 +298,7 @@ func (c *childState) newClock() {
 	c.pll = adjustments.NewPLL(log, c.snow)
 	c.issued = map[int]time.Time{}
 	c.nAdj, c.expected, c.taint = 0, 0, nil
+	c.consumed = watcher.count()
 	c.base = runtime.NumGoroutine()
 }
 
@@ -400,7 +440,14 @@ func (c *childState) run(t []string) (answer string, side map[string]string) {
 			}
 			time.Sleep(time.Millisecond)
 		}
-		now := time.Now()
+		for watcher.count() < c.consumed+n { // the watcher is at most a millisecond behind
+			if time.Now().After(deadline) {
+				return "err expire-timeout", side
+			}
+			time.Sleep(200 * time.Microsecond)
+		}
+		now := watcher.at(c.consumed + n - 1)
+		c.consumed += n
 		c.expected -= n
 		secs := ""
 		if n == 1 {
@@ -491,6 +538,7 @@ func childMain(mode string) {
 		say("NOPROBE bad-mode")
 		return
 	}
+	go watcher.run()
 	say(fmt.Sprintf("READY f0=%s ppm=%d", bits(c.f0), c.f0ppm))
 	in := bufio.NewScanner(os.Stdin)
 	in.Buffer(make([]byte, 1<<16), 1<<20)
@@ -675,6 +723,7 @@ type result struct {
 
 const kfMoved = "kernel-frequency-moved"
 const endedEarly = "slew-ended-early"
+const endedLate = "slew-ended-late"
 
 // early: did an expiry goroutine finish before the whole seconds its Adjust had to ask for? (the
 // machine's clock may have been stepped by someone else meanwhile: decided by re-running)
@@ -691,6 +740,9 @@ func early(r *result) string {
 			if el, err := strconv.ParseInt(o.side["el"], 10, 64); err == nil {
 				if want, ok := secs[t[1]]; ok && el < want*1000-25 {
 					return fmt.Sprintf("%s:%dms<%ds", endedEarly, el, want)
+				}
+				if want, ok := secs[t[1]]; ok && el > want*1000+900 {
+					return fmt.Sprintf("%s:%dms>%ds", endedLate, el, want)
 				}
 			}
 		}
@@ -755,8 +807,8 @@ func runPlan(p *plan) *result {
 			return r
 		}
 	}
-	if r.taint == "" {
-		r.taint = early(r)
+	if d := early(r); d != "" {
+		r.taint = d // the cause of whatever else went wrong with the timing of this history
 	}
 	return r
 }
@@ -1030,6 +1082,10 @@ func judge(c *lib.Ctx, r *result) {
 					if el, err := strconv.ParseInt(o.side["el"], 10, 64); err == nil {
 						if el < pd.secs*1000-25 {
 							fail("C19:sysclk-slew-duration", "the slew ended before the whole number of seconds Adjust must ask for (at least 1 s)",
+								map[string]any{"elapsed_ms": el, "seconds": pd.secs})
+						}
+						if el > pd.secs*1000+900 && pd.secs > 0 {
+							fail("C19:sysclk-slew-duration", "the slew lasted (three runs out of three) about a second or more longer than the whole number of seconds Adjust must ask for",
 								map[string]any{"elapsed_ms": el, "seconds": pd.secs})
 						}
 					}
@@ -1460,7 +1516,7 @@ func gen(c *lib.Ctx) {
 			c.Fail("C19:sysclk-kernel-frequency-moved", "zero-effect calls on the real clock (Step(0), Adjust(0, d, current frequency)) changed the kernel's frequency, three runs out of three",
 				ops, map[string]any{"scaled_ppm": res.taint})
 			continue
-		case strings.HasPrefix(res.taint, endedEarly):
+		case strings.HasPrefix(res.taint, endedEarly), strings.HasPrefix(res.taint, endedLate):
 			// three runs out of three: judged below (C19:sysclk-slew-duration)
 		case res.taint != "":
 			c.Count("history:timing-unreliable-dropped")
